@@ -1,3 +1,185 @@
-(* C02 property theorems: statements only, each closed by `exact`. (placeholder while building) *)
-From Coq Require Import List.
-From PAFC02 Require Import Model.
+(* C02 property theorems: statements only, each closed by `exact`.
+
+   Reading guide.  [value_for_R F var p ig u] is Model.prior_value_for -- Prior.value_for(u,
+   ignore_prior_limits = ig) of prior [p] -- instantiated with the reals; [F] packs the external
+   functions (ndtr = Phi, ndtri = PhiInv, erfinv, 14-decimal rounding), [special_ok F] / [round_ok F]
+   are the assumptions made about them (ProofsB.v).  [raw_value_R] is message.value_for,
+   [unit_value_R] is Prior.unit_value_for.  [var] is the variant of UniformPrior.value_for:
+   [Current] = /repo as it is (round after the limit check), [Repaired] = proposed fix.
+   [valid p]: lower < upper, sigma > 0 (gaussian families), 0 < lower (log-uniform).
+   Theorems over R quantify over unit values strictly inside (0,1). *)
+From Coq Require Import Reals List QArith.
+From PAFC02 Require Import Model Proofs ProofsQ ProofsB.
+Import ListNotations.
+Open Scope R_scope.
+
+(* ---- arbitrary transform stacks (induction over the list of transforms) ---- *)
+
+Theorem C02_stack_monotone : forall F : funs, special_ok F ->
+  forall ts : list (transform R), Forall pos_scale ts ->
+  forall x y : R, x <= y ->
+  msg_inverse_transform (RAf F) (RSf F) ts x <= msg_inverse_transform (RAf F) (RSf F) ts y.
+Proof. exact stack_monotone_b. Qed.
+
+Theorem C02_stack_inverse : forall F : funs, special_ok F ->
+  forall ts : list (transform R), Forall pos_scale ts ->
+  forall x : R, msg_transform (RAf F) (RSf F) ts (msg_inverse_transform (RAf F) (RSf F) ts x) = x.
+Proof. exact stack_inverse_b. Qed.
+
+(* ---- monotone ---- *)
+
+(* what Prior.value_for returns is non-decreasing in the unit value: all four families, limits enforced
+   or ignored, current and repaired rounding *)
+Theorem C02_monotone : forall F : funs, special_ok F -> round_ok F ->
+  forall (var : variant) (p : prior R) (ig : bool) (u u' v v' : R),
+  valid p -> 0 < u -> u <= u' -> u' < 1 ->
+  value_for_R F var p ig u = Ok v -> value_for_R F var p ig u' = Ok v' -> v <= v'.
+Proof. exact monotone_b. Qed.
+
+(* the message value is even strictly increasing (distinct unit values give distinct physical values) *)
+Theorem C02_message_strictly_increasing : forall F : funs, special_ok F ->
+  forall (p : prior R) (u v : R), valid p -> 0 < u -> u < v -> v < 1 -> raw_value_R F p u < raw_value_R F p v.
+Proof. exact strict_message_b. Qed.
+
+(* ---- inverted by unit_value_for ---- *)
+
+Theorem C02_inverse_message : forall F : funs, special_ok F ->
+  forall (p : prior R) (u : R), valid p -> 0 < u < 1 -> unit_value_R F p (raw_value_R F p u) = u.
+Proof. exact inverse_message_b. Qed.
+
+Theorem C02_inverse : forall F : funs, special_ok F ->
+  forall (var : variant) (p : prior R) (ig : bool) (u v : R),
+  valid p -> p_family p <> Uniform -> 0 < u < 1 -> value_for_R F var p ig u = Ok v -> unit_value_R F p v = u.
+Proof. exact inverse_returned_b. Qed.
+
+(* uniform prior: up to the rounding to 14 decimals *)
+Theorem C02_inverse_uniform_partial : forall F : funs, special_ok F -> round_ok F ->
+  forall (var : variant) (p : prior R) (ig : bool) (u v : R),
+  p_family p = Uniform -> p_lo p < p_hi p -> 0 < u < 1 -> value_for_R F var p ig u = Ok v -> p_lo p < v < p_hi p ->
+  unit_value_R F p v = (v - p_lo p) / (p_hi p - p_lo p) /\
+  Rabs (unit_value_R F p v - u) <= 5 / 10 ^ 15 / (p_hi p - p_lo p).
+Proof. exact inverse_uniform_b. Qed.
+
+(* ---- quantile function of the declared distribution ---- *)
+
+Theorem C02_quantile_uniform : forall F : funs, special_ok F -> forall (p : prior R) (u : R),
+  p_family p = Uniform -> 0 < u < 1 -> raw_value_R F p u = p_lo p + u * (p_hi p - p_lo p).
+Proof. exact quantile_uniform_b. Qed.
+
+Theorem C02_quantile_loguniform : forall F : funs, special_ok F -> forall (p : prior R) (u : R),
+  p_family p = LogUniform -> 0 < p_lo p -> p_lo p < p_hi p -> 0 < u < 1 ->
+  raw_value_R F p u = p_lo p * Rpower (p_hi p / p_lo p) u.
+Proof. exact quantile_loguniform_b. Qed.
+
+Theorem C02_quantile_gaussian : forall F : funs, special_ok F -> forall (p : prior R) (u : R),
+  p_family p = Gaussian -> 0 < u < 1 -> raw_value_R F p u = p_mean p + p_sigma p * f_PhiInv F u.
+Proof. exact quantile_gaussian_b. Qed.
+
+Theorem C02_quantile_loggaussian : forall F : funs, special_ok F -> forall (p : prior R) (u : R),
+  p_family p = LogGaussian -> 0 < u < 1 -> raw_value_R F p u = exp (p_mean p + p_sigma p * f_PhiInv F u).
+Proof. exact quantile_loggaussian_b. Qed.
+
+(* the two bounded families map the CLOSED probability interval onto [lower, upper]; end points included *)
+Theorem C02_endpoints_uniform : forall (F : funs) (lo hi q : R), lo < hi -> 0 <= q <= 1 ->
+  lo <= msg_inverse_transform (RAf F) (RSf F) [TLinear lo (hi - lo)] q <= hi /\
+  msg_inverse_transform (RAf F) (RSf F) [TLinear lo (hi - lo)] 0 = lo /\
+  msg_inverse_transform (RAf F) (RSf F) [TLinear lo (hi - lo)] 1 = hi.
+Proof. exact endpoints_uniform_b. Qed.
+
+Theorem C02_endpoints_loguniform : forall (F : funs) (lo hi q : R), 0 < lo -> lo < hi -> 0 <= q <= 1 ->
+  let ts := [TLinear (log10R lo) (log10R (hi / lo)); TLog10] in
+  lo <= msg_inverse_transform (RAf F) (RSf F) ts q <= hi /\
+  msg_inverse_transform (RAf F) (RSf F) ts 0 = lo /\ msg_inverse_transform (RAf F) (RSf F) ts 1 = hi.
+Proof. exact endpoints_loguniform_b. Qed.
+
+(* ---- the limit gate ---- *)
+
+Theorem C02_gate : forall (F : funs) (var : variant) (p : prior R) (u v : R),
+  p_family p <> Uniform -> value_for_R F var p false u = Ok v -> p_lo p <= v <= p_hi p.
+Proof. exact gate_b. Qed.
+
+Theorem C02_gate_raises_iff : forall (F : funs) (var : variant) (p : prior R) (u : R),
+  value_for_R F var p false u = LimitExc <-> ~ (p_lo p <= raw_value_R F p u <= p_hi p).
+Proof. exact gate_raises_iff_b. Qed.
+
+Theorem C02_gate_ignored : forall (F : funs) (var : variant) (p : prior R) (u : R),
+  exists v, value_for_R F var p true u = Ok v.
+Proof. exact gate_ignored_b. Qed.
+
+(* UniformPrior: FULL statement "a returned value lies within the limits" over exact rationals with the exact
+   decimal rounding: refuted for the current code, proved under the guard, proved for the repair *)
+Theorem C02_uniform_within_limits_refuted : ~ uniform_within_limits Current.
+Proof. exact uniform_within_limits_current_refuted. Qed.
+
+Theorem C02_uniform_within_limits_partial : forall (p : prior Q) (x r : Q),
+  (round14_Q (p_lo p) == p_lo p)%Q -> (round14_Q (p_hi p) == p_hi p)%Q ->
+  post QA Current p false x = Ok r -> (p_lo p <= r /\ r <= p_hi p)%Q.
+Proof. exact uniform_within_limits_current_partial. Qed.
+
+Theorem C02_uniform_within_limits_repaired : uniform_within_limits Repaired.
+Proof. exact uniform_within_limits_repaired. Qed.
+
+(* the same over the reals for any monotone rounding *)
+Theorem C02_gate_uniform_partial : forall F : funs, round_ok F -> forall (p : prior R) (u v : R),
+  f_round14 F (p_lo p) = p_lo p -> f_round14 F (p_hi p) = p_hi p ->
+  value_for_R F Current p false u = Ok v -> p_lo p <= v <= p_hi p.
+Proof. exact gate_uniform_partial_b. Qed.
+
+Theorem C02_gate_repaired : forall (F : funs) (p : prior R) (u v : R),
+  value_for_R F Repaired p false u = Ok v -> p_lo p <= v <= p_hi p.
+Proof. exact gate_repaired_b. Qed.
+
+(* the assumptions made about the rounding are met by the exact decimal rounding *)
+Theorem C02_round14_mono : forall x y : Q, (x <= y)%Q -> (round14_Q x <= round14_Q y)%Q.
+Proof. exact round14_Q_mono. Qed.
+
+Theorem C02_round14_idem : forall x : Q, (round14_Q (round14_Q x) == round14_Q x)%Q.
+Proof. exact round14_Q_idem. Qed.
+
+Theorem C02_round14_err : forall x : Q, (Qabs.Qabs (round14_Q x - x) <= 5 # 1000000000000000)%Q.
+Proof. exact round14_Q_err. Qed.
+
+(* ---- random draws ---- *)
+
+Theorem C02_uniform_unit_limits : forall F : funs, special_ok F -> forall p : prior R,
+  p_family p = Uniform -> p_lo p < p_hi p -> lower_unit_R F p = Reps /\ upper_unit_R F p = 1 - Reps.
+Proof. exact uniform_unit_limits_b. Qed.
+
+Theorem C02_random_unit_between : forall (F : funs) (p : prior R) (l u r : R),
+  Rmax l (lower_unit_R F p) <= Rmin u (upper_unit_R F p) -> 0 <= r <= 1 ->
+  Rmax l (lower_unit_R F p) <= random_unit_R F p l u r <= Rmin u (upper_unit_R F p).
+Proof. exact random_unit_between_b. Qed.
+
+Theorem C02_random_within : forall F : funs, round_ok F -> forall (var : variant) (p : prior R) (l u r v : R),
+  (p_family p <> Uniform \/ var = Repaired \/ (f_round14 F (p_lo p) = p_lo p /\ f_round14 F (p_hi p) = p_hi p)) ->
+  random_R F var p l u r = Ok v -> p_lo p <= v <= p_hi p.
+Proof. exact random_within_b. Qed.
+
+Theorem C02_random_gaussian_never_raises : forall F : funs, special_ok F ->
+  forall (var : variant) (p : prior R) (l u r : R),
+  p_family p = Gaussian -> 0 < p_sigma p -> p_lo p < p_hi p ->
+  Rmax l (lower_unit_R F p) <= Rmin u (upper_unit_R F p) -> 0 <= r <= 1 ->
+  exists v, random_R F var p l u r = Ok v /\ p_lo p <= v <= p_hi p.
+Proof. exact random_gaussian_b. Qed.
+
+(* ---- vector_from_unit_vector: value_for position by position (any number type) ---- *)
+
+Theorem C02_vector : forall (N : Type) (A : Arith N) (S : Special N) (var : variant) (ig : bool)
+  (ps : list (prior N)) (us vs : list N),
+  vector_for A S var ig ps us = VOk vs ->
+  length vs = Nat.min (length ps) (length us) /\
+  forall i p u, nth_error ps i = Some p -> nth_error us i = Some u ->
+    exists v, nth_error vs i = Some v /\ prior_value_for A S var p ig u = Ok v.
+Proof. exact @vector_for_ok. Qed.
+
+Theorem C02_vector_raises : forall (N : Type) (A : Arith N) (S : Special N) (var : variant) (ig : bool)
+  (ps : list (prior N)) (us : list N),
+  vector_for A S var ig ps us = VLimitExc ->
+  exists i p u, nth_error ps i = Some p /\ nth_error us i = Some u /\ prior_value_for A S var p ig u = LimitExc.
+Proof. exact @vector_for_raises. Qed.
+
+Print Assumptions C02_monotone.
+Print Assumptions C02_inverse_message.
+Print Assumptions C02_quantile_loguniform.
+Print Assumptions C02_uniform_within_limits_refuted.
+Print Assumptions C02_vector.
